@@ -32,8 +32,22 @@ def lattice(tier):
     return base
 
 
+def psd_singular_terms():
+    """catalogue terms that are PSD by construction but may be singular (interpolated, root, kernel operators): sampling is still defined"""
+    out = []
+    for name, t in R.catalogue(3, include_rect=False).items():
+        (r, c), b = R.shape_of_safe(t)
+        if b is not None and r == c and b.psd and not b.pd and "Zero" not in R.heads_of(t):
+            out.append((name, t))
+    return out
+
+
 def cases(tier, seed):
     out = []
+    for name, term in psd_singular_terms():
+        for b in ([], [2]):
+            for k in (1, 2):
+                out.append({"name": name, "term": term, "batch": b, "k": k, "cfg": {}, "singular": True})
     for name, term, kind in R.pd_terms(tier):
         if kind != "pd":
             continue
@@ -108,6 +122,8 @@ def run(case):
     distinct = bool(((ev[..., 1:] - ev[..., :-1]) > 1e-3 * ev[..., -1:]).all()) if n > 1 else True
     feat["distinct"] = distinct
     cond = (ev[..., -1] / ev[..., 0]).max().item()
+    if case.get("singular") or not cond > 0:
+        cond = 1e4  # singular PSD covariance (default settings, direct roots): a fixed absolute-relative tolerance of 1e-5 * scale * n
     scale = A.abs().amax().item()
 
     def sample(mode, hot=None, combo=None):
